@@ -105,6 +105,9 @@ mutual
     | .fn s => pure (.fn s)
 end
 
+/-- the quirks of the tree under verification (kept in step with /repo by Facts) -/
+def currentQuirks : Quirks := {}
+
 /-- rewriteYieldFuncBody: the body of one generator function -/
 def compile (q : Quirks) (body : Stmts) : Except String Stmts := do
   let b ← rwStmts q (p0Stmts body) (Blk.mk0 .delay)
